@@ -750,11 +750,23 @@ impl GlobalInferenceCtx<'_> {
                 _ => ExprMutability::ImmutableRef(self.bodies.range_for_expr(expr)),
             },
             Expr::Deref { pointer } => self.get_mutability(*pointer, assignment, true),
-            Expr::Index { source: array, .. } => self.get_mutability(
-                *array,
-                assignment,
-                deref || self.tys[self.loc][*array].is_pointer(),
-            ),
+            Expr::Index { source: array, .. } => {
+                // the element itself is a pointer that is being dereferenced:
+                // its own type decides (just like a pointer stored in a struct field)
+                if deref && let Some((mutable, _)) = self.tys[self.loc][expr].as_pointer() {
+                    return if mutable {
+                        ExprMutability::Mutable
+                    } else {
+                        ExprMutability::ImmutableRef(self.bodies.range_for_expr(expr))
+                    };
+                }
+
+                self.get_mutability(
+                    *array,
+                    assignment,
+                    deref || self.tys[self.loc][*array].is_pointer(),
+                )
+            }
             Expr::Block {
                 tail_expr: Some(tail_expr),
                 ..
